@@ -19,7 +19,7 @@ func init() {
 		StubParts:  []string{"GenerationEvaluator and TrialRunObserver (scripted, logging)", "wall clock (fake clock for the sequential executor; real, unobserved clock for the parallel one)", "goroutine choice in parallel runs"},
 		FaultKinds: []string{"fault.eval-error", "fault.cancel@eval-entry", "fault.cancel@eval-mid(timer)", "fault.cancel@eval-exit", "fault.cancel@TrialRunStarted", "fault.cancel@EpochEvaluated", "fault.cancel@TrialRunFinished", "fault.cancel@epoch.prepared", "fault.cancel@offspring-k", "fault.cancel@speciate.begin"},
 		Assumes:    []string{"after a cancellation the observer may still learn that the next trial started (the run notices the cancellation at the next generation check); that is a prefix of the ideal sequence and accepted"},
-		ProbeNames: []string{"probe.solved_early", "probe.solved_last_generation", "probe.unsolved_trial", "probe.no_observer", "probe.parallel", "probe.fault_free_run", "probe.nil_after_cancel_protocol_complete", "probe.single_fault_sweep", "probe.multi_fault"},
+		ProbeNames: []string{"probe.solved_early", "probe.solved_last_generation", "probe.unsolved_trial", "probe.no_observer", "probe.parallel", "probe.fault_free_run", "probe.nil_after_cancel_protocol_complete", "probe.single_fault_sweep", "probe.multi_fault", "probe.preallocated_trials"},
 	})
 }
 
@@ -275,11 +275,17 @@ func scenarioC20(c *RunCtx) {
 		maxTrials, maxGens, maxPop = 4, 6, 20
 	}
 	s := DrawExpSim(c, maxTrials, maxGens, maxPop, true)
-	c.Sample = s.Describe()
 	mode := t.Pick("faultmode", 3, 6, 2, 1)
 	if c.Thorough && mode == 3 && t.Chance("moreSweeps", 1, 2) {
 		mode = 3
 	}
+	// a caller may hand Execute an experiment object whose Trials slice already exists (reuse, own sizing): exactly the
+	// configured number of trials must run all the same (drawn last so that older tapes keep their meaning)
+	if t.Chance("preallocatedTrials", 1, 4) {
+		s.PreTrials = s.Opts.NumRuns + t.Draw("preallocatedTrials.extra", 3)
+		c.Count("probe.preallocated_trials")
+	}
+	c.Sample = s.Describe()
 	switch mode {
 	case 0:
 		runExpOnce(c, s)
